@@ -49,16 +49,24 @@ def run(ctx):
     if not ok:
         return
     eps = entry_points(ctx.facts, CRATE)
-    paths = ctx.summarise(eps["execute"])
-    groups = dispatch(paths)
     n_debits = set()
     n_draws = set()
     n_emit = 0
-    for variant, ps in sorted(groups.items(), key=lambda x: str(x[0])):
+    allgroups = []
+    for ename, fn in sorted(eps.items()):
+        if ename == "query":
+            continue
+        ps_ = ctx.summarise(fn)
+        if ename == "instantiate":
+            continue          # creation of balances: no previous holder to protect (genesis is C01 R01.5)
+        g = dispatch(ps_) if ename == "execute" else {None: ps_}
+        for variant, ps in sorted(g.items(), key=lambda x: str(x[0])):
+            allgroups.append((ename, variant, ps))
+    for ename, variant, ps in allgroups:
         for p in ps:
             if p.is_err():
                 continue
-            key = "execute/%s" % variant
+            key = "%s/%s" % (ename, variant)
             effs = p.effects
             writes = [(i, e) for i, e in enumerate(effs) if e.kind == "write"]
             balw = [(i, e, cell_delta(e)) for i, e in writes if e.item == BAL]
